@@ -196,6 +196,7 @@ class Flow:
                 exit_states |= r.normal          # zero (more) iterations
                 tgt = ast.Assign(targets=[st.target], value=ast.Constant(value=None))
                 tgt.lineno = st.lineno
+                tgt._loop_target = True
                 body_in = set()
                 for s in r.normal:
                     body_in |= set(self.transfer(tgt, s))
